@@ -14,7 +14,7 @@ From Coq Require Import List Arith Reals.
 From GB Require Import Base.Field Base.FNum Base.Tables Model.Shell Model.MomentInt Model.Overlap
   Proofs.CoreSumP Proofs.CoreBlockP Proofs.CoreDiffP Proofs.CoreNormP Proofs.CoreExamplesP Proofs.ScreeningP
   Model.Spherical Proofs.BlockMatP Proofs.AssembledP Proofs.AssembledOverlapP Proofs.AssembledRealP
-  Proofs.AssembledSphP Proofs.AssembledSphOverlapP Proofs.AssembledExamplesP.
+  Proofs.AssembledSphP Proofs.AssembledSphOverlapP Proofs.AssembledLincombP Proofs.AssembledExamplesP.
 Import ListNotations.
 
 (* what the index symbols stand for (by definition) *)
@@ -322,3 +322,31 @@ Example C01_overlap_mixed_lower_Qc :
       nth (gidx K ex_basis 0 1 c') (nth (gidx K ex_basis 1 0 c) (overlap_integral K ex_basis None) []) (f0 K)).
 Proof. exact overlap_mixed_lower_ex. Qed.
 Print Assumptions C01_overlap_mixed_lower_Qc.
+
+(* ================= the final transformation (transform = T, lincomb) =================
+   mat_shape R C m: m has R rows of C entries. *)
+(* entry (a, b) of lincomb2 T1 T2 m = sum_l T2[b][l] . (sum_k T1[a][k] . m[k][l]); any element module, no law *)
+Theorem C01_lincomb2_entry :
+  forall (F : Type) (K : Fops F) (A : Type) (azero : A) (aadd : A -> A -> A) (ascale : F -> A -> A)
+         (T1 T2 : list (list F)) (m : list (list A)) (R C S1 S2 a b : nat),
+  (length m = R /\ Forall (fun row => length row = C) m) -> 0 < R -> 0 < C ->
+  (length T1 = S1 /\ Forall (fun row => length row = R) T1) ->
+  (length T2 = S2 /\ Forall (fun row => length row = C) T2) -> a < S1 -> b < S2 ->
+  nth b (nth a (Model.Assembly.lincomb2 azero aadd ascale T1 T2 m) []) azero
+  = Model.Assembly.asum azero aadd (mk C (fun l => ascale (nth l (nth b T2 []) (f0 K))
+      (Model.Assembly.asum azero aadd (mk R (fun k => ascale (nth k (nth a T1 []) (f0 K)) (nth l (nth k m []) azero)))))).
+Proof. exact (fun F K A z a s => lincomb2_entry K z a s). Qed.
+Print Assumptions C01_lincomb2_entry.
+
+(* the transformed overlap matrix of any basis (any coordinate types, rectangular T allowed) is symmetric *)
+Theorem C01_overlap_integral_sym_T :
+  forall (F : Type) (K : Fops F), is_field K ->
+  (forall x : F, fapx K x = x) -> fadd K (f1 K) (f1 K) <> f0 K ->
+  forall bs : list (shell F), (forall s, In s bs -> 0 < nseg s) -> basis_wf bs -> basis_exps K bs bs ->
+  0 < length bs ->
+  forall (t : list (list F)) (S : nat),
+  (length t = S /\ Forall (fun row => length row = ototal K bs) t) ->
+  forall a b, a < S -> b < S ->
+  nth a (nth b (overlap_integral K bs (Some t)) []) (f0 K) = nth b (nth a (overlap_integral K bs (Some t)) []) (f0 K).
+Proof. exact (fun F K Kf Hapx H2 => overlap_integral_sym_T K Kf Hapx H2). Qed.
+Print Assumptions C01_overlap_integral_sym_T.
